@@ -1,5 +1,5 @@
 (* C03 proofs, part 7: end-to-end statements for run_request, per protocol *)
-From CppcmsV Require Import Base.Tac C03.Defs C03.Proofs C03.Proofs2 C03.Proofs3 C03.Proofs4 C03.Proofs5 C03.Proofs6.
+From CppcmsV Require Import Base.Tac C03.Defs C03.Proofs C03.Proofs2 C03.Proofs3 C03.Proofs4 C03.Proofs5 C03.Proofs6 C03.ProofsCb.
 Local Open Scope N_scope.
 
 Definition script_body (ops : list op) : bytes := concat (map obytes ops).
@@ -7,7 +7,8 @@ Definition fresh (c : conn) : Prop := k_err c = false /\ k_trace c = [] /\ k_wir
 
 Lemma run_request_whole async base defbuf version c ops :
   run_request async base defbuf version c ops =
-  (snd (whole (new_resp async base defbuf version) c ops), c_all (r_cpy (fst (whole (new_resp async base defbuf version) c ops)))).
+  (snd (whole (new_resp async base defbuf version) c ops),
+   if r_copy_on (fst (whole (new_resp async base defbuf version) c ops)) then cb_page ops else []).
 Proof.
   unfold run_request, whole. destruct (run_ops _ c ops) as [r c1]. destruct (finish r c1) as [r2 c2]. reflexivity.
 Qed.
@@ -32,7 +33,8 @@ Proof.
   assert (Hs : sent c = []) by (unfold sent, wire_bytes; now rewrite Hw, Hp).
   pose proof (whole_done async ops (new_resp async base defbuf version) c (pre_new _ _ _ _) He Ht Hs) as H.
   cbv zeta in H. cbn [new_resp r_hdrs r_version] in H. destruct H as [HD HC].
-  split; [exact (done_wire _ _ _ HD Hok)|]. split; [exact (dn_pending _ _ _ HD Hok)|exact HC].
+  split; [exact (done_wire _ _ _ HD Hok)|]. split; [exact (dn_pending _ _ _ HD Hok)|].
+  intros Hc. rewrite Hc. apply cb_page_exact.
 Qed.
 
 (* ---------------------------------------------------------------- per protocol *)
